@@ -436,5 +436,6 @@ PROPS["C12"] = {
     ],
     "thorough": [
         {"test": "^TestMemoryBounded$", "shards": 16, "env": {"VERIF_C12_PHASES": 5, "VERIF_C12_PER_PHASE": 100000, "VERIF_C12_CHURN_EVERY": 5000, "VERIF_C12_CHURN_BATCH": 100}, "timeout": 3000},
+        {"test": "^TestKnownArrivalGroupGrows$", "timeout": 600},
     ],
 }
